@@ -112,13 +112,57 @@ def gen_atom(rng):
 
 
 def gen_trans(rng):
-    """None | ('atom', a) | ('seq', [a..])"""
-    r = rng.below(10)
-    if r < 2:
+    """None | ('atom', a) | ('seq', [a..]) | ('chain', tree): a chain with sub-chains, `identity` at every level"""
+    r = rng.below(20)
+    if r < 4:
         return None
-    if r < 6:
+    if r < 11:
         return ('atom', gen_atom(rng))
-    return ('seq', [gen_atom(rng) for _ in range(rng.randint(2, 4))])
+    if r < 16:
+        return ('seq', [gen_atom(rng) for _ in range(rng.randint(2, 4))])
+    return ('chain', gen_tree(rng, 2, top=True))
+
+
+# trees of chains: ('a', atom) | ('s', [tree..]) | ('runt', program, tree): run PROGRAM -transformed-by TREE
+def gen_leaf(rng):
+    return ('a', ('id', rng.chance(0.5)) if rng.chance(0.4) else gen_atom(rng))
+
+
+def gen_tree(rng, depth, top=False):
+    r = rng.below(10)
+    if not top and (depth <= 0 or r < 5):
+        return gen_leaf(rng)
+    if not top and r < 6 and rng.chance(0.5):
+        return ('runt', rng.choice(sorted(RUNS)), gen_tree(rng, 0) if rng.chance(0.4) else ('s', [gen_leaf(rng), gen_leaf(rng)]))
+    elems = [gen_tree(rng, depth - 1) for _ in range(rng.randint(2, 3))]
+    if top and not any(e[0] == 's' for e in elems):  # at least one parenthesised sub-chain, with an identity in it
+        elems[rng.below(len(elems))] = ('s', [gen_leaf(rng), ('a', ('id', rng.chance(0.5)))] if rng.chance(0.5)
+                                        else [('a', ('id', rng.chance(0.5))), gen_leaf(rng)])
+    return ('s', elems)
+
+
+def tree_src(t):
+    if t[0] == 'a':
+        return atom_src(t[1])
+    if t[0] == 's':
+        return '( ' + ' | '.join(tree_src(e) for e in t[1]) + ' )'
+    return 'run % ' + RUNS[t[1]][0] + '\n-transformed-by ' + tree_src(t[2]) + '\n'
+
+
+def tree_coq(t):
+    if t[0] == 'a':
+        return '(CAtom %s)' % atom_coq(t[1])
+    if t[0] == 's':
+        return '(CSeq %s)' % clist([tree_coq(e) for e in t[1]])
+    return '(CSeq [CAtom (TRun %s); %s])' % (RUNS[t[1]][1], tree_coq(t[2]))
+
+
+def as_tree(trans):
+    if trans[0] == 'atom':
+        return ('a', trans[1])
+    if trans[0] == 'seq':
+        return ('s', [('a', a) for a in trans[1]])
+    return trans[1]
 
 
 BASE_KINDS = ['str', 'file', 'prog']
@@ -206,7 +250,7 @@ def pred_coq(p):
 
 def atom_src(a):
     if a[0] == 'id':
-        return 'identity'
+        return 'IDT' if len(a) > 1 and a[1] else 'identity'  # IDT: a text-transformer symbol defined as identity
     if a[0] == 'upper':
         return 'char-case -to-upper'
     if a[0] == 'replace':
@@ -232,6 +276,8 @@ def atom_coq(a):
 def trans_src(t):
     if t[0] == 'atom':
         return atom_src(t[1])
+    if t[0] == 'chain':
+        return tree_src(t[1])
     return '( ' + ' | '.join(atom_src(a) for a in t[1]) + ' )'
 
 
@@ -240,6 +286,8 @@ def trans_coq(t):
         return 'None'
     if t[0] == 'atom':
         return '(Some (TAtom %s))' % atom_coq(t[1])
+    if t[0] == 'chain':
+        return '(Some (TChain %s))' % tree_coq(t[1])
     return '(Some (TSeq %s))' % clist([atom_coq(a) for a in t[1]])
 
 
@@ -382,6 +430,8 @@ class World:
                 s = opt + '@ ' + name + '\n' + stdin_opt(sins[1])
             else:
                 s = opt + '$ ' + cmd + '\n' + ''.join(stdin_opt(q) for q in sins)
+        elif kind == 'progsym':
+            return self.progsym_syntax(text, trans), None
         elif kind == 'runin':
             m, sin = text
             s = nl(self.source_syntax(m[0], m[1], None)[0]) + '-transformed-by run % cat\n-stdin ( ' + \
@@ -392,6 +442,28 @@ class World:
             s += '-transformed-by ' + trans_src(trans)
         return s, None
 
+    def progsym_syntax(self, text, trans):
+        """a program symbol that carries a transformation T1 (and its first stdin part); the reference adds the second
+        stdin part and, optionally, a transformation T2: the source is transformed by the chain [T1, T2]"""
+        (v, ft, sin, nd), t1 = text
+        sins = stdin_parts(sin)
+        opt, _, to_stderr, ignore = PROG_VARIANTS[v]
+        cmd = 'cat' + ('' if ft is None else ' ' + str(self.put_file(ft))) + (' -' if sins and ft is not None else '')
+        if to_stderr:
+            cmd += ' >&2'
+        if ignore:
+            cmd += '; exit 3'
+
+        def stdin_opt(q):
+            return '-stdin ( ' + nl(self.source_syntax(q[0], q[1], None)[0]) + ')\n'
+        self.n += 1
+        name = 'PROG%d' % self.n
+        self.symdefs[name] = '$ ' + cmd + '\n' + ''.join(stdin_opt(q) for q in sins[:1]) + '-transformed-by ' + nl(tree_src(t1))
+        s = opt + '@ ' + name + '\n' + ''.join(stdin_opt(q) for q in sins[1:])
+        if trans is not None:
+            s += '-transformed-by ' + trans_src(trans)
+        return s
+
     def symbols(self):
         """symbol table with the program symbols the rendered syntax refers to"""
         from exactly_lib.section_document.parse_source import ParseSource
@@ -400,8 +472,12 @@ class World:
         from exactly_lib.symbol.sdv_structure import SymbolContainer
         from exactly_lib.symbol.value_type import ValueType
         parser = parse_program.program_parser(must_be_on_current_line=False)
-        return SymbolTable({name: SymbolContainer(parser.parse(ParseSource(src)), ValueType.PROGRAM, None)
-                            for name, src in self.symdefs.items()})
+        from exactly_lib.impls.types.string_transformer import parse_string_transformer
+        table = {name: SymbolContainer(parser.parse(ParseSource(src)), ValueType.PROGRAM, None)
+                 for name, src in self.symdefs.items()}
+        table['IDT'] = SymbolContainer(parse_string_transformer.parsers().full.parse(ParseSource('identity')),
+                                       ValueType.STRING_TRANSFORMER, None)
+        return SymbolTable(table)
 
     def build_source(self, syntax, env):
         from exactly_lib.section_document.parse_source import ParseSource
@@ -470,11 +546,19 @@ def is_nd(kind, text):
     return False
 
 
+def coq_src(kind, text, trans):
+    """(base term, optional transformer term) of a source"""
+    if kind == 'progsym':  # the program's own transformation T1 followed by the reference's T2: one chain [T1, T2]
+        t1 = tree_coq(text[1])
+        chain = t1 if trans is None else '(CSeq [%s; %s])' % (t1, tree_coq(as_tree(trans)))
+        return base_coq('progx', text[0]), '(Some (TChain %s))' % chain
+    return base_coq(kind, text), trans_coq(trans)
+
+
 def access_case_term(kind, text, trans, buff, accs, observed):
-    return '(%s %s %s %s %s %s)' % ('CaseAccessND' if is_nd(kind, text) else 'CaseAccess',
-                                    base_coq(kind, text), trans_coq(trans), cN(buff),
-                                            clist([ACC_COQ[a] for a in accs]),
-                                            clist([obs_coq(o) for o in observed]))
+    return '(%s %s %s %s %s %s)' % (('CaseAccessND' if is_nd(kind, text) else 'CaseAccess',) + coq_src(kind, text, trans) + (cN(buff),
+                                    clist([ACC_COQ[a] for a in accs]),
+                                    clist([obs_coq(o) for o in observed])))
 
 
 # ---------------------------------------------------------------------------------------------
@@ -631,8 +715,8 @@ def observe_kinds(world, te, ta, trans, buff, variant='out', sin=False):
 
 
 def verdict_case_term(kind, text, trans, buff, extra, m, observed):
-    return '(CaseVerdict %s %s %s %s %s %s)' % (base_coq(kind, text), trans_coq(trans), cN(buff), cN(extra),
-                                               matcher_coq(m), clist([cobool(v) for v in observed]))
+    return '(CaseVerdict %s %s %s %s %s %s)' % (coq_src(kind, text, trans) + (cN(buff), cN(extra),
+                                               matcher_coq(m), clist([cobool(v) for v in observed])))
 
 
 def kinds_case_term(te, ta, trans, buff, extra, observed, variant='out', sin=False):
@@ -647,6 +731,8 @@ def leaf_texts(kind, text):
         return ([text[1]] if text[1] is not None else []) + [t for q in stdin_parts(text[2]) for t in leaf_texts(*q)]
     if kind == 'runin':
         return leaf_texts(*text[0]) + leaf_texts(*text[1])
+    if kind == 'progsym':
+        return leaf_texts('progx', text[0])
     return [text]
 
 
@@ -805,7 +891,12 @@ def run(ctx, res):
                         accs = pre + ['freeze'] + views
                         if rng.chance(0.6):
                             trans = None  # the frozen program source itself is what is consumed
-                elif r < 32:  # MODEL -transformed-by run % cat -stdin S : concat [S, MODEL] as the program's stdin
+                elif r < 33:  # a program symbol with a transformation of its own, referenced with a further transformation
+                    _, px = gen_progx(rng, exotic, allow_nd=False)
+                    kind, text = 'progsym', (px, gen_tree(rng, 1, top=rng.chance(0.7)))
+                    trans = gen_trans(rng) if rng.chance(0.7) else None
+                    buff = gen_buff(rng, whole_text(kind, text))
+                elif r < 37:  # MODEL -transformed-by run % cat -stdin S : concat [S, MODEL] as the program's stdin
                     kind = 'runin'
                     text = ((rng.choice(BASE_KINDS), gen_text(rng, exotic, 3, 3)), (rng.choice(['str', 'file']), gen_text(rng, exotic, 2, 3)))
                     trans = None
@@ -833,7 +924,7 @@ def run(ctx, res):
                 res.count('access cases: text larger than 8 KiB')
             res.count('access cases: ' + ('non-ASCII text' if any(ord(ch) >= 128 for ch in whole) else 'ASCII text'))
             add(access_case_term(*c[:6]), case_json(c), texts, buff, ('a', syntax, repr(text), buff, tuple(accs)),
-                ('freeze' in accs and accs.index('freeze') < len(accs) - 1) or trans is not None or kind in ('concat', 'progx', 'runin') or
+                ('freeze' in accs and accs.index('freeze') < len(accs) - 1) or trans is not None or kind in ('concat', 'progx', 'progsym', 'runin') or
                 (whole and not whole.endswith('\n')) or finding_of(texts, buff))
         for j in range(len(CORPUS_VERDICT) + n_ver):
             if j < len(CORPUS_VERDICT):
@@ -855,6 +946,11 @@ def run(ctx, res):
                     if rng.chance(0.3):
                         m = ('neg', m)
                     res.count('verdict cases: long prefix / line-extension pair')
+                elif rng.chance(0.08):
+                    _, px = gen_progx(rng, exotic, allow_nd=False)
+                    kind, text = 'progsym', (px, gen_tree(rng, 1, top=rng.chance(0.7)))
+                    buff = gen_buff(rng, whole_text(kind, text))
+                    m = gen_matcher(rng, rng.randint(0, 2), whole_text(kind, text), exotic)
                 elif rng.chance(0.12):
                     kind, text = gen_progx(rng, exotic, allow_nd=False)
                     buff = gen_buff(rng, whole_text(kind, text))
